@@ -28,6 +28,20 @@ CLAIMED = {
         "technique": "Rocq proof by induction over the retry loop + differential run of RetryMiddleware vs model",
         "coq_targets": ["Properties/C20.vo", "Corr/RetryCorr.vo"],
     },
+    "C19": {
+        "text": "Theorems over all option sequences (any length, any arguments), all Register/NewRest histories and all "
+                "middleware lists: RestConf holds exactly the last argument per option (zero if none) and every Use "
+                "argument in order; Register panics iff the type was registered before, NewRest panics iff it was not and "
+                "otherwise applies the first-registered constructor to exactly that conf; the chain is first-added "
+                "outermost with logging outside all; client timeout = configured timeout on the repaired branch, with the "
+                "int64-wrap defect of the template modelled and refuted by witness (open finding K_rest_timeout, golden-locked). "
+                "Tied to restclient.go/constructor.go/middleware and the generated client by a Go driver executing option "
+                "sequences and registry histories, compared inside Coq.",
+        "design_ref": "DESIGN.md section 8, C19",
+        "note": COMMON_NOTE + "reflect.Type identity is modelled as an abstract type id; the logging middleware is observed by its position only.",
+        "technique": "Rocq proof by induction over option lists, registry histories and middleware lists + differential run of the runtime/generated client vs model",
+        "coq_targets": ["Properties/C19.vo", "Corr/RestRuntimeCorr.vo"],
+    },
 }
 
 NOT_CLAIMED = {}
